@@ -347,6 +347,14 @@ def cmd_check(pid, tier, runs_override=None, workers=None, verbose=True):
     errors = []
     samples = []
     harness_error = None
+    import shutil
+    import tempfile
+    shm = "/dev/shm" if os.path.isdir("/dev/shm") and os.access("/dev/shm", os.W_OK) else tempfile.gettempdir()
+    batch_scratch = os.path.join(shm, f"nauyaca-verif-batch-{os.getpid()}")
+    os.makedirs(batch_scratch, exist_ok=True)
+    os.environ["VERIF_SCRATCH_PARENT"] = batch_scratch
+    import atexit
+    atexit.register(shutil.rmtree, batch_scratch, True)
     with cf.ProcessPoolExecutor(max_workers=nw, mp_context=ctx) as ex:
         futs = [ex.submit(_worker_chunk, (pid, tier, verif_seed, c, run_cap)) for c in chunks]
         try:
@@ -372,6 +380,8 @@ def cmd_check(pid, tier, runs_override=None, workers=None, verbose=True):
         except cf.process.BrokenProcessPool as e:
             harness_error = f"worker died: {e}"
     wall_batch = _perf() - t0
+    os.environ.pop("VERIF_SCRATCH_PARENT", None)
+    shutil.rmtree(batch_scratch, ignore_errors=True)
     known = load_known()
     out_viol = []
     known_hits = []
